@@ -11,7 +11,8 @@
 (***************************************************************************)
 EXTENDS Integers, Sequences, FiniteSets, TLC
 
-CONSTANTS MaxSize, NConns, Budget, Modes   \* Modes \subseteq {"right", "stale", "wrong", "error", "disconnect"}
+CONSTANTS MaxSize, NConns, Budget, Modes   \* Modes \subseteq {"right", "stale", "wrong", "error", "disconnect", "stall"}
+                                           \* ("stall": no reply at all - the pool's recycle timeout ends the wait)
 
 Conns == 1..NConns
 
